@@ -135,7 +135,7 @@ REPO_SETS_ALL = ["cases", "casestl2", "goldmaster", "schema"]
 
 
 # (schema set, config) pairs whose generated code does not build on the pinned tree: that is C14's finding F31, not something the codec checks can use
-UNBUILDABLE = {("schema", "split")}
+UNBUILDABLE = {("schema", "split"), ("casestl2", "split")}  # the second builds but its factory_bytes panics at package init (finding F34, decided by C17)
 
 
 def repo_packages(ctx, sets, configs, must=False):
@@ -189,7 +189,7 @@ def sanity_reclass(schema):
     return f
 
 
-def simple_check(ctx, mode, rule, require, quick_values, thorough_values, configs_quick=("tl2all",), configs_thorough=("tl2all", "tl2all-nosanity", "split", "nobytes"),
+def simple_check(ctx, mode, rule, require, quick_values, thorough_values, configs_quick=("tl2all",), configs_thorough=("tl2all", "split", "nobytes"),
                  count_keys=("values",), env=None, fill_death_is_violation=False, sets_quick=None, mem_gb=6, random_quick=0, random_thorough=0):
     thorough = ctx.tier == "thorough"
     ctx.make_scratch()
